@@ -138,9 +138,10 @@ Proof. intros. apply ps_txn_d1; intros; [apply ps_dyn_copy_d0|apply ps_no_tail_d
 Theorem ps_res_deleted_d : forall fuel hd hc name, ps_disc (ps_res_deleted fuel hd hc name).
 Proof.
   intros. unfold ps_res_deleted. apply ps_disc_bind.
-  - destruct hc; [apply ps_disc1_disc; apply ps_cnt_deleted_d1|constructor].
-  - intro c. destruct (c =? PS_FUEL); [constructor|].
-    destruct hd; [apply ps_disc1_disc; apply ps_dyn_deleted_d1|constructor].
+  - destruct hd; [apply ps_disc1_disc; apply ps_dyn_deleted_d1|constructor].
+  - intro d. destruct (d =? PS_FUEL); [constructor|]. destruct hc; [|constructor].
+    apply ps_disc_bind; [apply ps_disc1_disc; apply ps_cnt_deleted_d1|].
+    intro c0. destruct (c0 =? PS_FUEL); constructor.
 Qed.
 
 (* the loaders *)
